@@ -775,11 +775,11 @@ func (g *graph) step(m mut, o op) (alts []*graph, mayErr bool) {
 				}
 			}
 			alts = append(alts, a)
-			if kind == 'v' { // keeping the entry as an unbound one (export flag retained) is fine too
-				b := g.clone()
-				b.p[p].vars[o.arg].val = unboundVal
-				alts = append(alts, b)
-			}
+			// keeping the entry as an unbound one (the symbol stays present in
+			// the package, export flag retained: Common Lisp) is fine too
+			b := g.clone()
+			b.tab(p, kind)[o.arg].val = unboundVal
+			alts = append(alts, b)
 			break
 		}
 		alts = append(alts, g.clone()) // no own definition: nothing to remove
@@ -788,11 +788,9 @@ func (g *graph) step(m mut, o op) (alts []*graph, mayErr bool) {
 			a := g.clone()
 			delete(a.tab(c.q, kind), o.arg)
 			alts = append(alts, a)
-			if kind == 'v' {
-				b := g.clone()
-				b.p[c.q].vars[o.arg].val = unboundVal
-				alts = append(alts, b)
-			}
+			b := g.clone()
+			b.tab(c.q, kind)[o.arg].val = unboundVal
+			alts = append(alts, b)
 		}
 	}
 	return
